@@ -793,7 +793,7 @@ impl<'p> Interp<'p> {
         self.model
             .scopes
             .iter()
-            .map(|m| m.iter().filter(|(k, _)| **k < 32).map(|(k, v)| (*k, *v)).collect())
+            .map(|m| m.iter().filter(|(k, _)| **k < 32 && **k != TAG_LOGCFG).map(|(k, v)| (*k, *v)).collect())
             .collect()
     }
 
